@@ -123,10 +123,16 @@ pub fn drive(vectors: &str, out: &str, thorough: bool) {
   let (cfgs_js, cfgs_py) = (mk("JavaScript"), mk("Python"));
   let scratch = format!("/var/tmp/agv-c14-{}", std::process::id());
   // CLI runs are the expensive part: every layout in thorough, a stride in quick
-  let stride = if thorough { 1 } else { (layouts.len() / 400).max(1) };
-  let results = cli::par_map(&layouts, 12, |i, layout| {
-    // every layout in its plain form; one more skin per layout in turn (all of them in thorough)
-    let skins: Vec<Skin> = if thorough { SKINS.to_vec() } else if i % 6 == 0 { vec![SKINS[0]] } else { vec![SKINS[0], SKINS[i % 6]] };
+  let stride = (layouts.len() / if thorough { 6000 } else { 400 }).max(1);
+  let mut w = NdWriter::new(out);
+  let mut n_cli = 0;
+  // layouts are processed in chunks and written out at once: the thorough model exports > 150 000 of them
+  for (chunk_no, chunk) in layouts.chunks(4000).enumerate() {
+  let base = chunk_no * 4000;
+  let results = cli::par_map(chunk, 12, |k, layout| {
+    let i = base + k;
+    // every layout in its plain form and in one more skin, in turn
+    let skins: Vec<Skin> = if i % 6 == 0 { vec![SKINS[0]] } else { vec![SKINS[0], SKINS[i % 6]] };
     let mut recs = vec![];
     for skin in &skins {
       let (src, off) = render(layout, skin);
@@ -177,9 +183,6 @@ pub fn drive(vectors: &str, out: &str, thorough: bool) {
     }
     recs
   });
-  let _ = std::fs::remove_dir_all(&scratch);
-  let mut w = NdWriter::new(out);
-  let mut n_cli = 0;
   for rs in results {
     for r in rs {
       if r["front"] == "cli" {
@@ -188,6 +191,8 @@ pub fn drive(vectors: &str, out: &str, thorough: bool) {
       w.put(&r);
     }
   }
+  }
+  let _ = std::fs::remove_dir_all(&scratch);
   let n = w.finish();
   util::summary(json!({"records": n, "layouts": layouts.len(), "cli_runs": n_cli}));
 }
